@@ -34,7 +34,109 @@ def need(flat, pat, what):
         raise TranslateError(f"cap no longer applied as modelled: {what}")
 
 
+# every limit constant of every module source, with the number of places that use it
+# (pinned when the check was built: a constant that disappears, or loses a use, is a
+# TranslateError; new constants are picked up automatically)
+PINNED_CONSTS = {
+    ('dex/parser.rs', 'MAX_STRINGS'): 1, ('dex/parser.rs', 'MAX_TYPES'): 1, ('dex/parser.rs', 'MAX_PROTOS'): 1,
+    ('dex/parser.rs', 'MAX_CLASSES'): 1, ('dex/parser.rs', 'MAX_METHODS'): 1, ('dex/parser.rs', 'MAX_FIELDS'): 1,
+    ('dotnet/parser.rs', 'MAX_PARAMS'): 2, ('dotnet/parser.rs', 'MAX_ROWS_PER_TABLE'): 1,
+    ('dotnet/parser.rs', 'MAX_ARRAY_DIMENSION'): 3, ('dotnet/parser.rs', 'MAX_RECURSION'): 2,
+    ('math.rs', 'DISTRIBUTION_CACHE_MAX_ENTRIES'): 1,
+    ('olecf/parser.rs', 'MAX_STREAM_SIZE'): 2, ('olecf/parser.rs', 'MAX_REGULAR_SECTOR'): 13,
+    ('pe/parser.rs', 'MAX_PE_SECTIONS'): 1, ('pe/parser.rs', 'MAX_PE_IMPORTS'): 5, ('pe/parser.rs', 'MAX_PE_EXPORTS'): 2,
+    ('pe/parser.rs', 'MAX_PE_RESOURCES'): 1, ('pe/parser.rs', 'MAX_PE_RESOURCE_DIR_ENTRIES'): 1,
+    ('pe/parser.rs', 'MAX_DIR_ENTRIES'): 2, ('pe/parser.rs', 'MAX_FUNC_NAME_LENGTH'): 3, ('pe/parser.rs', 'MAX_DLL_NAME_LENGTH'): 1,
+}
+# inline limits written as `verify(parser, |x| *x <= N)` / `< N`, per file
+PINNED_INLINE = {'dotnet/parser.rs': 6, 'lnk/parser.rs': 1, 'pe/parser.rs': 2}
+
+
+def module_sources():
+    import glob
+    root = os.path.join(REPO, "lib/src/modules") + os.sep
+    out = {}
+    for f in sorted(glob.glob(root + "**/*.rs", recursive=True)):
+        rel = f[len(root):]
+        if "/tests/" in rel or rel.startswith("protos") or "verif_c11" in rel or rel == "tests.rs":
+            continue
+        t = strip_comments(open(f, encoding="latin-1").read())
+        # drop `#[cfg(test)] mod x;` declarations and `#[cfg(test)] mod x { .. }` blocks
+        while True:
+            m = re.search(r"#\[cfg\(test\)\]\s*(?:pub\s+)?mod\s+[a-z_0-9]+\s*(;|\{)", t)
+            if not m:
+                break
+            if m.group(1) == ";":
+                t = t[:m.start()] + t[m.end():]
+            else:
+                t = t[:m.start()] + t[match_brace(t, m.end() - 1) + 1:]
+        out[rel] = t
+    if not out:
+        raise TranslateError("no module sources found under lib/src/modules")
+    return out
+
+
+def limit_inventory():
+    """(file, constant) -> (value text, number of uses) for every MAX/LIMIT/DEPTH constant"""
+    inv, inline = {}, {}
+    for rel, t in module_sources().items():
+        for m in re.finditer(r"const\s+([A-Z0-9_]*(?:MAX|LIMIT|DEPTH)[A-Z0-9_]*)\s*:\s*(\w+)\s*=\s*([^;]+);", t):
+            name = m.group(1)
+            inv[(rel, name)] = (re.sub(r"\s+", " ", m.group(3).strip()), len(re.findall(r"\b" + name + r"\b", t)) - 1)
+        n = len(re.findall(r"verify\(\s*[a-z_0-9:<>&\[\], ]+?,\s*\|[a-z_]+\|\s*\*?[a-z_]+\s*(?:<=|<)\s*[0-9A-Za-z_:]+", t))
+        if n:
+            inline[rel] = n
+    for key, uses in PINNED_CONSTS.items():
+        if key not in inv:
+            raise TranslateError(f"limit constant {key[1]} of modules/{key[0]} has disappeared")
+        if inv[key][1] < uses:
+            raise TranslateError(f"limit constant {key[1]} of modules/{key[0]} is applied in {inv[key][1]} place(s), {uses} when the check was built: a cap has been removed")
+    for rel, n in PINNED_INLINE.items():
+        if inline.get(rel, 0) < n:
+            raise TranslateError(f"modules/{rel}: {inline.get(rel, 0)} inline `verify(.., |x| *x <= N)` limits, {n} when the check was built: a limit has been removed")
+    return inv, inline
+
+
+HASH_TYPES = r"(?:FxHashMap|FxHashSet|HashMap|HashSet)"
+
+
+def hash_iteration_sites():
+    """Structural determinism check: every binding of a hash container in the module sources
+    (let, field, parameter, tuple-struct wrapper) and every place that ITERATES over one
+    (iter / into_iter / keys / values / drain / for .. in): iteration order of these containers is
+    unspecified, so an output list fed from such an iteration could differ between two calls.
+    Lookups, inserts and membership tests are order-independent and are not listed."""
+    containers, sites = [], []
+    for rel, t in module_sources().items():
+        if not re.search(HASH_TYPES, t):
+            continue
+        names = set()
+        for m in re.finditer(r"\blet\s+(?:mut\s+)?([a-z_][a-z_0-9]*)\s*(?::\s*[^=;]*?" + HASH_TYPES + r"[^=;]*)?=\s*[^;]*?" + HASH_TYPES + r"\b", t):
+            names.add(m.group(1))
+        for m in re.finditer(r"\b([A-Za-z_][A-Za-z_0-9]*)\s*:\s*(?:&\s*(?:'[a-z_]+\s+)?(?:mut\s+)?)?(?:[A-Za-z:<]*<)*\s*" + HASH_TYPES + r"\s*<", t):
+            names.add(m.group(1))
+        wrappers = re.findall(r"struct\s+([A-Za-z0-9_]+)\s*\(\s*(?:pub\s+)?" + HASH_TYPES + r"\s*<", t)
+        for n in sorted(names):
+            containers.append(f"{rel}:{n}")
+        for w in wrappers:
+            containers.append(f"{rel}:{w}.0")
+        iter_re = r"\.(?:iter|iter_mut|into_iter|keys|values|values_mut|into_keys|into_values|drain)\s*\("
+        for n in names:
+            for m in re.finditer(r"(?:\bself\s*\.\s*)?\b" + re.escape(n) + r"\s*(?:\.\s*borrow(?:_mut)?\(\)\s*)?" + iter_re, t):
+                sites.append(f"{rel}:{n}:{m.group(0).strip()}")
+            for m in re.finditer(r"\bfor\s+[^;{]*?\bin\s+&?\s*(?:mut\s+)?(?:self\s*\.\s*)?" + re.escape(n) + r"\s*\{", t):
+                sites.append(f"{rel}:{n}:for-in")
+        if wrappers:
+            for m in re.finditer(r"\.\s*0\s*" + iter_re, t):
+                sites.append(f"{rel}:.0:{m.group(0).strip()}")
+    if not containers:
+        raise TranslateError("no hash containers found in the module sources: the scan no longer sees what it used to")
+    return sorted(set(containers)), sorted(set(sites))
+
+
 def main():
+    inventory, inline = limit_inventory()
+    hcont, hsites = hash_iteration_sites()
     texts = {k: strip_comments(src(p)) for k, p in FILES.items()}
     cs = {k: consts(t, FILES[k]) for k, t in texts.items()}
     pe = re.sub(r"\s+", " ", texts["pe"])
@@ -106,10 +208,23 @@ def main():
             lines.append(f"Definition {k}_{n} : N := {v}.")
     out = f"""(* GENERATED by translate/gen_modcaps.py from lib/src/modules/{{pe,dotnet,dex}}/parser.rs
    -- do not edit; regenerated on every check. *)
-From Coq Require Import NArith.
+From Coq Require Import NArith String List.
+Import ListNotations.
 Local Open Scope N_scope.
 
 {chr(10).join(lines)}
+
+(* every limit constant of every module source: (file, name, value as written, places that use it) *)
+Definition module_limit_constants : list (string * string * string * nat) :=
+  [{"; ".join('("%s", "%s", "%s", %d%%nat)' % (k[0], k[1], v[0].replace('"', "'"), v[1]) for k, v in sorted(inventory.items()))}]%string.
+(* inline `verify(.., |x| *x <= N)` limits per file *)
+Definition module_inline_limits : list (string * nat) := [{"; ".join('("%s", %d%%nat)' % (k, v) for k, v in sorted(inline.items()))}]%string.
+
+(* determinism, structural part: hash containers bound in the module sources ... *)
+Definition module_hash_containers : list string := [{"; ".join('"%s"' % c for c in hcont)}]%string.
+(* ... and the places that iterate over one of them (iteration order is unspecified);
+   lookups / inserts / membership tests are not listed *)
+Definition module_hash_iteration_sites : list string := [{"; ".join('"%s"' % c.replace('"', "'") for c in hsites)}]%string.
 
 (* pe parse_resources: entries of directories at levels 0..rsrc_max_level are
    processed; deeper directories are still dequeued and parsed, their entries skipped *)
